@@ -566,7 +566,15 @@ class RoiSubsetStateNd(SubsetState):
         if not self.roi.defined():
             return np.zeros(raw_comps[0].shape, dtype=bool)
 
-        if raw_comps[0].ndim == data.ndim and all([att in data.pixel_component_ids for att in self._atts]):
+        # The shortcut below relies on each dimension of the result being the
+        # (sliced) corresponding dimension of the data, which is only the case
+        # if the view is made of slices (and not e.g. integer index arrays,
+        # which can give a result that happens to have data.ndim dimensions).
+        view_is_slices = (view is None or view is Ellipsis or isinstance(view, slice) or
+                          (isinstance(view, tuple) and all(isinstance(v, slice) for v in view)))
+
+        if (view_is_slices and raw_comps[0].ndim == data.ndim and
+                all([att in data.pixel_component_ids for att in self._atts])):
             # This is a special case - the ROI is defined in pixel space, so we
             # can apply it to a single slice and then broadcast it to all other
             # dimensions. We start off by extracting a slice which takes only
